@@ -10,6 +10,11 @@
 //     sudo   po(o: core::option::Option<X>)              X likewise
 //     query  pq(k: self::Wrap<Y>) -> Digit1              Y inside a `self::`-qualified path
 //     U: unused
+//   `Y` is bound by TWO separate predicates (`Y: P`, `Y: PartialEq<T>`): valid Rust, and what a user who adds
+//   a relation to an existing clause writes.  The helper traits used to declare one associated type per
+//   predicate and so rejected this contract (defect F6, fixed by `fa5be64`; DESIGN §6a).
+//   The helper types carry the `crate = ..` attributes of serde / schemars: the harness crate has no `serde`
+//   dependency of its own.
 //   expected generated types (ORACLE, hand-written):
 //     sv::ExecMsg<T>   sv::SudoMsg<X>   sv::QueryMsg<Y>   sv::InstantiateMsg
 
@@ -27,11 +32,15 @@ pub mod gp {
     impl P for u64 {}
 
     #[derive(Serialize, Deserialize, Clone, Debug, PartialEq, JsonSchema)]
+    #[serde(crate = "sylvia::serde")]
+    #[schemars(crate = "sylvia::schemars")]
     pub struct Wrap<T> {
         pub w: T,
     }
 
     #[derive(Serialize, Deserialize, Clone, Debug, PartialEq, JsonSchema, Default)]
+    #[serde(crate = "sylvia::serde")]
+    #[schemars(crate = "sylvia::schemars")]
     pub struct Digit1 {
         pub v: u8,
     }
